@@ -689,6 +689,22 @@ class ParsersWorld:
                     kw["output_mode"] = m
             swarm["distinct_modes"] = True
         swarm["clock"] = core.stream(seed, "clock").random() < 0.4
+        rd = core.stream(seed, "doomed")
+        if rd.random() < (0.12 if not marathon else 0.3):
+            # fault at construction: one object is given logging arguments with which its constructor fails when it is the
+            # one that configures the root logger (log file in a missing directory, unknown level name).  What becomes of
+            # THAT object is not judged; the others must be undisturbed (and must not wait for it for ever).
+            cands = [t for t in tasks if not t.get("via_file") and not t.get("ctor_elsewhere")]
+            if cands:
+                t = rd.choice(cands)
+                t["doomed"] = True
+                t["flags"] = dict(t["flags"], **rd.choice([{"log_file": "no/such/dir/sdp.log"}, {"log_level": "LOUD"},
+                                                            {"log_file": "no/such/dir/sdp.log", "log_level": 10}]))
+                if rd.random() < 0.6:
+                    # ... and it is the first constructor of the process
+                    tasks.remove(t)
+                    tasks.insert(0, t)
+                swarm["doomed_ctor"] = True
         return {"world": "parsers", "prop": "C15", "seed": seed, "swarm": swarm, "tasks": tasks}
 
     @staticmethod
@@ -846,6 +862,7 @@ class ParsersWorld:
                 except Exception as e:  # noqa
                     prebuilt[spec.get("tid", n_)] = e
         st["stats"]["ctor_elsewhere"] = len(prebuilt)
+        st["stats"]["doomed_ctor_tasks"] = sum(1 for t_ in trace["tasks"] if t_.get("doomed"))
         seams.HOOKS.point = point
         blocked = None
         deadlock = None
@@ -880,6 +897,13 @@ class ParsersWorld:
         cancelled_objs = set((i, oi) for (i, oi, j, out) in outcomes if out[0] == "cancelled")
         for (i, oi, j, out) in outcomes:
             spec = ([by_tid[i]] + list(by_tid[i].get("then") or []))[oi]
+            if by_tid[i].get("doomed"):
+                # constructed with logging arguments that fail when this constructor is the one configuring the root
+                # logger: whether it raised depends, today, on who came first - the fault, not an outcome to judge
+                if oi == 0 and j == -1:
+                    st["stats"]["doomed_ctor_raised"] = st["stats"].get("doomed_ctor_raised", 0) + 1
+                if oi == 0:
+                    continue
             st["stats"]["runs"] += 1
             if oi:
                 st["stats"]["then_objects_runs"] += 1
